@@ -117,6 +117,7 @@ Proof.
   destruct (stored_task_facts c jid tid st R Hst) as (cj0 & Hcj0 & Hs & Hid & Hj & Hjn & Hw).
   rewrite Hcj in Hcj0. injection Hcj0 as <-.
   destruct (c_nodes c !! nid) as [ni|] eqn:Hni; [|exact Same].
+  destruct (n_has_node ni) eqn:Hhas; cbn [negb]; [|exact Same].
   pose proof (rp_nodes c R nid ni Hni) as HR.
   unfold job_set_status. cbn [fst snd].
   set (t1 := set_status st Binding).
@@ -877,6 +878,7 @@ Proof.
   destruct (stored_task c (Some jid) tid) as [st|] eqn:Hst; [|exact HP].
   destruct (stored_task_facts c jid tid st R Hst) as (_ & _ & Hs & Hid & Hj & Hjn & Hw).
   destruct (c_nodes c !! nid) as [ni|]; [|exact HP].
+  destruct (n_has_node ni) eqn:Hhas; cbn [negb]; [|exact HP].
   unfold job_set_status. cbn [fst snd].
   destruct (node_add eps ni (set_status st Binding)) as [[ni' t2]|err] eqn:Hadd.
   - cbn [fst]. intros i t. unfold Queued, QueuedIn in *. simpl.
